@@ -88,11 +88,35 @@ def run_book(case):
                           trial_opts={"ms_ndets": 6} if case["kind"] == "multislater" else None, chol_scale=0.6)
     prop, trial, hd, wdat = S["prop"], S["trial"], S["ham_data"], S["wave_data"]
     psi = S["t"]["psi"]
+    events = []
+    # history on ONE ham_data dict (as a driver that refreshes its intermediates does): intermediates first built for another mean-field
+    # density / reference energy / constant, then rebuilt for the present ones, must equal a fresh build - and it is the REBUILT dict
+    # that the steps below use
+    hd_dirty = dict(hd)
+    wd_other = dict(wdat)
+    wd_other["rdm1"] = wdat["rdm1"] * 0.5 + 0.1 * jnp.eye(norb)[None]
+    hd_dirty["ene0"] = case["ene0"] + 1.7
+    hd_dirty["h0"] = hd["h0"] - 0.9
+    hd_dirty = S["ham"].build_propagation_intermediates(hd_dirty, prop, trial, wd_other)
+    hd_dirty["ene0"], hd_dirty["h0"] = hd["ene0"], hd["h0"]
+    hd_dirty = S["ham"].build_measurement_intermediates(hd_dirty, trial, wdat)
+    hd_dirty = S["ham"].build_propagation_intermediates(hd_dirty, prop, trial, wdat)
+    worst_k, worst_d = None, 0.0
+    for k_ in hd:
+        try:
+            a_, b_ = np.asarray(hd[k_]), np.asarray(hd_dirty[k_])
+        except Exception:
+            continue
+        if a_.dtype.kind in "fc" and a_.shape == b_.shape:
+            d_ = float(np.max(np.abs(a_ - b_))) if a_.size else 0.0
+            if d_ > worst_d:
+                worst_k, worst_d = k_, d_
+    events.append(judge("rebuild/propagation-intermediates-equal-a-fresh-build", worst_d, 1e-12, "C05/rebuild/intermediates", worst_key=worst_k))
+    hd = hd_dirty
     w0 = afqmc.noisy_walkers(rng, S, nw, noise=0.3)
     pd = prop.init_prop_data(trial, wdat, hd, w0)
     U = [np.asarray(w0[0]).copy(), np.asarray(w0[1]).copy()]   # model: unnormalised walkers
     scal = np.ones(nw, dtype=complex)
-    events = []
     key = "C05/book/%s" % case["kind"]
     worst = {"state": 0.0, "ovl": 0.0, "novl": 0.0, "orth": 0.0}
     for step in range(case["steps"]):
